@@ -45,6 +45,9 @@ def run(prog, tier):
     check_label_order(R, prog)
     check_writers(R, prog)
     check_return_defined(R, prog)
+    from ._families import borrow as _borrow
+    from . import c16 as _c16
+    _borrow(R, P, "GRAPH", prog, _c16.analyse, floor=100)
     return R
 
 
